@@ -6,7 +6,7 @@ Per change: patch.diff, demo/ (the agent's demonstration), meta.json = the agent
 or entries of lib/seeded_overrides.json for results obtained by hand)."""
 import json, os, re, shutil, glob, sys
 
-SRCS = ["/tmp/mut-out", "/tmp/mut-out2"]
+SRCS = ["/tmp/mut-out", "/tmp/mut-out2", "/tmp/mut-out3"]
 DST = "/verif/seeded"
 over = {}
 op = "/verif/lib/seeded_overrides.json"
@@ -14,14 +14,18 @@ if os.path.exists(op):
     over = json.load(open(op))
 
 rows = []
-for d in sorted(sum((glob.glob(f"{r}/C*/[abcd]") for r in SRCS), [])):
+for d in sorted(sum((glob.glob(f"{r}/C*/[abcde]") for r in SRCS), [])):
     pid, var = d.split("/")[-2:]
     sid = f"{pid}-{var}"
     mp, cp = f"{d}/meta.json", f"{d}/confirm.json"
     if not (os.path.exists(mp) and os.path.exists(f"{d}/patch.diff")):
         continue
     meta = json.load(open(mp))
+    if meta.get("delivered") is False:
+        continue  # the agent could not produce a change that keeps the existing tests green
     conf = json.load(open(cp)) if os.path.exists(cp) else None
+    if conf and sid in over and "confirmed" in over[sid]:
+        conf.update(over[sid]["confirmed"])
     out = f"{DST}/{sid}"
     os.makedirs(out, exist_ok=True)
     shutil.copy(f"{d}/patch.diff", f"{out}/patch.diff")
@@ -37,6 +41,12 @@ for d in sorted(sum((glob.glob(f"{r}/C*/[abcd]") for r in SRCS), [])):
             txt = open(f).read()
             sigs = sorted(set(re.findall(r"signature=(\S+)", txt)))
             caught[f"{pid} {tier}"] = sigs
+    # wave 3 was evaluated against scratch worktrees (lib/scratch_check.sh): first run, then again after strengthening
+    if os.path.exists(f"{d}/check.log"):
+        caught[f"{pid} quick (first run)"] = sorted(set(re.findall(r"signature=(\S+)", open(f"{d}/check.log").read())))
+    for f in sorted(glob.glob(f"{d}/recheck-*.log")):
+        P = re.search(r"recheck-(C\d+)\.log", f).group(1)
+        caught[f"{P} quick (after strengthening)"] = sorted(set(re.findall(r"signature=(\S+)", open(f).read())))
     for k, v in over.get(sid, {}).get("caught", {}).items():
         caught[k] = v
     m = {
@@ -44,7 +54,7 @@ for d in sorted(sum((glob.glob(f"{r}/C*/[abcd]") for r in SRCS), [])):
         "summary": meta.get("summary"), "mechanism": meta.get("mechanism"),
         "needs_to_manifest": meta.get("needs_to_manifest"), "files_changed": meta.get("files_changed"),
         "demo": {"cmd": meta.get("demo_cmd"), "failure_rate_or_time": meta.get("failure_rate_or_time")},
-        "produced_by": "fresh sub-agent given only the property text and a scratch worktree (wave %d)" % (2 if var in "cd" else 1),
+        "produced_by": "fresh sub-agent given only the property text and a scratch worktree (wave %d)" % (3 if var == "e" else 2 if var in "cd" else 1),
         "confirmed": conf,
         "checks_run": caught,
         "caught": any(v for v in caught.values()),
